@@ -13,11 +13,29 @@
         events   comma-separated  b.<t> | r.<t>.<head> | w.<t>.<old>.<new>.<o|c> | s.<t>.<older>.<newer> | e.<t>.<k>   (`_` = none)
         -> `ok` / `reject <index>` from the latest-tree-head machine
 
+    client.lookup <h> <nosumdb> <pub> <vtable> <reads> <writes> <lookups>
+        one instance of the sequential client (Model/Client.lean) over a REPLAY environment, SHA-256 hashes:
+        h        tile height (SetTileHeight; 0 = not called)
+        nosumdb  hex GONOSUMDB list
+        pub      hex Ed25519 public key the verdict table speaks about
+        vtable   comma-separated `<hextext>.<hexsig>`: the (text, signature) pairs ed25519.Verify accepts under pub (`_` none)
+        reads    comma-separated `<r|c|f>.<hexfile>.<hexdata|!>`: the successive answers of ReadRemote / ReadCache / ReadConfig
+                 per file (`!` = error); a read with no answer left fails
+        writes   comma-separated `o|c|e`: the successive results of WriteConfig (none left = e)
+        lookups  comma-separated `<hexpath>.<hexvers>`, run in order on the one client
+        -> `<result>;<result>… <effects> <reads>`: result `ok:<n>:<digest of the lines>` or the error kind; effects
+           `wc.<hexfile>.<digest>` / `wf.<o|c|e>.<hexfile>.<digest old>.<digest new>` / `sec.<digest>` in order (`_` none);
+           reads = digest of the sorted multiset of read operations with their success flag
+
   No logic here: decode, call the model's checker, encode.
 -/
 import ModVerif.Drv.Util
 import ModVerif.Model.ParCache
 import ModVerif.Model.ClientTrace
+import ModVerif.Model.Client
+import ModVerif.Basic.Sha256
+import ModVerif.Basic.UnicodeLetter
+import ModVerif.Basic.PathMatch
 namespace ModVerif.Drv.Client
 open ModVerif ModVerif.Drv
 
@@ -60,7 +78,116 @@ def showVerdict : Option Nat → String
   | none => "ok"
   | some n => s!"reject {n}"
 
+/-! ### client.lookup: the sequential client over a replay environment -/
+
+/-- the replay environment: remaining answers -/
+structure Replay where
+  reads : List (ModVerif.Client.ReadKind × Bytes × Option Bytes)
+  writes : List ModVerif.Client.WriteRes
+
+/-- remove the first answer recorded for `(k, file)` -/
+def popRead (k : ModVerif.Client.ReadKind) (file : Bytes) :
+    List (ModVerif.Client.ReadKind × Bytes × Option Bytes) → Option (Option Bytes × List (ModVerif.Client.ReadKind × Bytes × Option Bytes))
+  | [] => none
+  | e :: rest =>
+    if e.1 == k && e.2.1 == file then some (e.2.2, rest)
+    else (popRead k file rest).map fun r => (r.1, e :: r.2)
+
+def replayRead (k : ModVerif.Client.ReadKind) (s : Replay) (file : Bytes) : Option Bytes × Replay :=
+  match popRead k file s.reads with
+  | some (ans, rest) => (ans, { s with reads := rest })
+  | none => (none, s)
+
+def replayEnv : ModVerif.Client.Env Replay :=
+  { readRemote := replayRead .remote
+    readCache := replayRead .cache
+    readConfig := replayRead .config
+    writeCache := fun s _ _ => s
+    writeConfig := fun s _ _ _ => match s.writes with
+      | [] => (.error, s)
+      | r :: rest => (r, { s with writes := rest })
+    securityError := fun s _ => s }
+
+/-- SHA-256 instance of the hash parameters: RecordHash = SHA-256(0x00 ‖ data), NodeHash = SHA-256(0x01 ‖ l ‖ r) -/
+def shaParams (h : Nat) (nosumdb pub : Bytes) (table : List (Bytes × Bytes)) : ModVerif.Client.Params Bytes :=
+  { leaf := fun d => Sha256.sha256 (0 :: d)
+    node := fun a b => Sha256.sha256 (1 :: (a ++ b))
+    empty := Sha256.sha256 []
+    hashSize := 32
+    dec := id
+    enc := id
+    height := h
+    nosumdb := nosumdb
+    isLetter := UnicodeLetter.isLetter
+    glob := PathMatch.pathMatch
+    sha := Sha256.sha256
+    edVerify := fun p msg sig => p == pub && table.contains (msg, sig)
+    retries := 1000 }
+
+def dig (b : Bytes) : String := ((Sha256.sum256Hex b).take 12).toString
+
+def parseRead (s : String) : Option (ModVerif.Client.ReadKind × Bytes × Option Bytes) :=
+  match s.splitOn "." with
+  | [k, f, d] => do
+    let k ← match k with
+      | "r" => some ModVerif.Client.ReadKind.remote | "c" => some .cache | "f" => some .config | _ => none
+    let f ← hx f
+    let d ← if d == "!" then some none else (hx d).map some
+    pure (k, f, d)
+  | _ => none
+
+def parseWrite : String → Option ModVerif.Client.WriteRes
+  | "o" => some .ok | "c" => some .conflict | "e" => some .error | _ => none
+
+def parsePair (s : String) : Option (Bytes × Bytes) :=
+  match s.splitOn "." with
+  | [a, b] => do pure (← hx a, ← hx b)
+  | _ => none
+
+def showWriteRes : ModVerif.Client.WriteRes → String
+  | .ok => "o" | .conflict => "c" | .error => "e"
+
+def showReadKind : ModVerif.Client.ReadKind → String
+  | .remote => "r" | .cache => "c" | .config => "f"
+
+def showResult : Except ModVerif.Client.Err (List Bytes) → String
+  | .ok lines => s!"ok:{lines.length}:{dig (joinWith [10] lines)}"
+  | .error e => e.name
+
+def showEffect : ModVerif.Client.Effect → Option String
+  | .writeCache f d => some s!"wc.{xh f}.{dig d}"
+  | .writeConfig f o n r => some s!"wf.{showWriteRes r}.{xh f}.{dig o}.{dig n}"
+  | .securityError m => some s!"sec.{dig m}"
+  | .read _ _ _ => none
+
+def showReadLine : ModVerif.Client.Effect → Option String
+  | .read k f ok => some s!"{showReadKind k} {xh f} {if ok then 1 else 0}"
+  | _ => none
+
+/-- run the lookups in order on one client -/
+def runLookups (P : ModVerif.Client.Params Bytes) :
+    ModVerif.Client.World Replay Bytes → List (Bytes × Bytes) → List String → List String × ModVerif.Client.World Replay Bytes
+  | w, [], acc => (acc.reverse, w)
+  | w, (p, v) :: rest, acc =>
+    let r := ModVerif.Client.lookup P replayEnv w p v
+    runLookups P r.2 rest (showResult r.1 :: acc)
+
 def handle : Handler
+  | "lookup", [h, nosumdb, pub, vtable, reads, writes, lookups] => do
+      let h ← h.toNat?
+      let nosumdb ← hx nosumdb
+      let pub ← hx pub
+      let table ← (listOf vtable).mapM parsePair
+      let reads ← (listOf reads).mapM parseRead
+      let writes ← (listOf writes).mapM parseWrite
+      let looks ← (listOf lookups).mapM parsePair
+      let P := shaParams h nosumdb pub table
+      let w0 : ModVerif.Client.World Replay Bytes :=
+        { s := { reads := reads, writes := writes }, c := ModVerif.Client.newClient P, tr := [] }
+      let (res, w) := runLookups P w0 looks []
+      let effs := w.tr.filterMap showEffect
+      let rds := (w.tr.filterMap showReadLine).mergeSort (fun a b => decide (a ≤ b))
+      some s!"{";".intercalate res} {if effs.isEmpty then "_" else ",".intercalate effs} {dig (Bytes.ofString ("\n".intercalate rds))}"
   | "pctrace", [keys, events] => do
       let ks ← natList keys
       let evs ← (listOf events).mapM parseVis
